@@ -14,6 +14,7 @@ import Driver.Retention
 import Driver.Rest
 import Driver.SanFilter
 import Driver.Sys
+import Driver.Pop3Conc
 open Driver
 
 /-
@@ -37,6 +38,7 @@ def main (args : List String) : IO UInt32 := do
   | ["ret"] => runLoop Driver.RetMode.step Driver.RetMode.init
   | ["rest"] => runLoop Driver.RestMode.step Driver.RestMode.init
   | ["sys"] => runLoop Driver.SysMode.step Driver.SysMode.init
+  | ["popconc"] => runLoop Driver.Pop3ConcMode.step Driver.Pop3ConcMode.init
   | ["sanf"] => runLoop (fun (_ : Unit) toks => ((), Driver.SanFilter.handler toks)) ()
   | _ => IO.eprintln s!"unknown mode {args}"; return 2
   return 0
